@@ -37,6 +37,8 @@ type Program struct {
 	Ghosts    map[string]*GhostField // owner key + "." + name
 	Axioms    []AxiomDecl
 	Lemmas    []LemmaDecl
+	Guarded   map[string]string // "pkg.T.f" or "global:pkg.v" -> mutex field / variable
+	Immutable map[string]bool   // same keys
 	SpecFiles []*SpecFile
 	HookFiles []string // comment-only verif-tagged files found in /repo
 	Trusted   []string // scan results: trusted/permissive contracts, axioms, abstract functions
@@ -66,7 +68,7 @@ func loadProgram(repoDir string, depSpecDir string) (*Program, error) {
 	}
 	p := &Program{RepoDir: repoDir, Pkgs: pkgs, AllPkgs: map[string]*packages.Package{}, ByName: map[string][]*packages.Package{},
 		Funcs: map[string]*ssa.Function{}, Contracts: map[string]*FuncContract{}, SpecFuncs: map[string]*SpecFunc{},
-		Ghosts: map[string]*GhostField{}}
+		Ghosts: map[string]*GhostField{}, Guarded: map[string]string{}, Immutable: map[string]bool{}}
 	packages.Visit(pkgs, nil, func(pk *packages.Package) {
 		p.AllPkgs[pk.PkgPath] = pk
 		p.ByName[pk.Name] = append(p.ByName[pk.Name], pk)
@@ -202,6 +204,18 @@ func (p *Program) register() error {
 			p.Contracts[c.Key()] = c
 			if c.Mode == "trusted" {
 				p.Trusted = append(p.Trusted, "trusted contract (assumed, not verified): "+shortFn(c.Key()))
+			}
+		}
+		for _, g := range sf.Guards {
+			pk := p.resolvePkg(g.Pkg)
+			key := pk + "." + g.Target
+			if g.Global {
+				key = "global:" + pk + "." + g.Target
+			}
+			if g.Kind == "guarded" {
+				p.Guarded[key] = g.Mutex
+			} else {
+				p.Immutable[key] = true
 			}
 		}
 		for _, l := range sf.Lemmas {
